@@ -23,7 +23,7 @@ NCPU = os.cpu_count() or 4
 TRUSTED_BASE_COMMON = [
     "Coq 8.16.1 kernel (coqc, vm_compute; no native_compute); full .vo build",
     "axioms: none expected -- every `Print Assumptions` must answer `Closed under the global context`",
-    "translators in /verif/translator (Python ast -> Coq data, fail-closed)",
+    "translators in /verif/translator (Python ast -> Coq data and terms of the embedded Python fragments model/PyL.v, model/SL.v; fail-closed); the interpreters of those fragments are my reading of Python and are run against CPython on every check that uses them (DESIGN.md sections 18, 20, 20.1, 14)",
     "correspondence harness in /verif/harness + /verif/lib (Python): generators, rendering of cases to Coq terms, canonicalisation of observations; model evaluated inside Coq by vm_compute (no extraction)",
     "modelled, not verified: CPython, NumPy, JAX, TensorFlow, typeguard 2.13.3, beartype 0.22.9 (see DESIGN.md section 7)",
 ]
